@@ -119,6 +119,7 @@ func allInc() incT {
 }
 
 type subOpts struct {
+	Pid         string    `json:"pid"` // single-item subscription (PullID) to this abstract id; "" = Pull
 	UpdatesOnly bool      `json:"updatesOnly"`
 	Mask        mini.Mask `json:"mask"`
 	Inc         incT      `json:"inc"`
@@ -188,9 +189,11 @@ type obsLine struct {
 	Ccb   int        `json:"ccb"`
 	Panic string     `json:"panic"`
 
-	Subs  []subOpts    `json:"subs"`
-	Held  []optMsg     `json:"held"`  // Value subscribers: what each holds before the call
-	Deliv [][]absEvent `json:"deliv"` // per subscriber: what it was handed because of this call
+	Subs         []subOpts    `json:"subs"`
+	ClosedBefore []bool       `json:"closedBefore"` // per subscriber: its channel had been closed by the library before the call
+	ClosedAfter  []bool       `json:"closedAfter"`
+	Held         []optMsg     `json:"held"`  // Value subscribers: what each holds before the call
+	Deliv        [][]absEvent `json:"deliv"` // per subscriber: what it was handed because of this call
 }
 
 // ---- scripted environment --------------------------------------------------
@@ -374,13 +377,21 @@ type subState struct {
 	base   int // pump.published when the subscription was opened
 	events []absEvent
 	isVal  bool
+	// PullID: the forwarder of the Pull it wraps reports on its own channel (inner); the PullID goroutine
+	// itself reports through the pid.* hooks on ours
+	inner     *subState
+	key       uintptr // the channel address it is tracked under
+	seedsSent int     // fwd.seed count (inner)
+	sentLoop  int     // fwd.sent count (inner)
+	closedLib bool
 }
 
 type pump struct {
+	orphans   []*subState // entries created by hooks for channels nobody has adopted (yet)
 	mu        sync.Mutex
 	published int // events handed to the bus so far (all resources; programs run one at a time)
-	byChan map[uintptr]*subState
-	wake   chan struct{}
+	byChan    map[uintptr]*subState
+	wake      chan struct{}
 }
 
 var thePump = &pump{byChan: map[uintptr]*subState{}, wake: make(chan struct{}, 1)}
@@ -393,31 +404,41 @@ func (p *pump) hook(point string, obj any, args ...any) {
 		p.mu.Unlock()
 		return
 	}
-	if !strings.HasPrefix(point, "fwd.") {
+	if !strings.HasPrefix(point, "fwd.") && !strings.HasPrefix(point, "pid.") {
 		return
 	}
 	key := reflect.ValueOf(obj).Pointer()
 	p.mu.Lock()
 	s := p.byChan[key]
 	if s == nil { // Pull has not returned the channel to us yet
-		if point == "fwd.exit" {
+		if point == "fwd.exit" || point == "pid.exit" {
 			// a forwarder we no longer track; its channel is alive during this call,
 			// so the address cannot belong to a newer subscription yet
 			p.mu.Unlock()
 			return
 		}
-		s = &subState{}
+		s = &subState{key: key}
 		p.byChan[key] = s
+		p.orphans = append(p.orphans, s)
 	}
 	switch point {
-	case "fwd.got":
+	case "fwd.got", "pid.got":
 		s.got++
-	case "fwd.skip", "fwd.sent":
+	case "fwd.skip", "pid.skip", "pid.sent":
 		s.done++
+	case "fwd.sent":
+		s.done++
+		s.sentLoop++
+	case "fwd.seed":
+		s.seedsSent++
 	case "fwd.seeded":
 		s.seeded = true
-	case "fwd.exit":
+	case "fwd.exit", "pid.exit":
+		// the goroutine's last word: its channel's address may be reused from now on
 		s.exited = true
+		if p.byChan[key] == s {
+			delete(p.byChan, key)
+		}
 	}
 	p.mu.Unlock()
 	select {
@@ -440,18 +461,61 @@ func (p *pump) adopt(ch any, isVal bool) *subState {
 	defer p.mu.Unlock()
 	s := p.byChan[key]
 	if s == nil || s.exited || s.ch.IsValid() { // nothing yet, or a stale entry of a dead subscription at the same address
-		s = &subState{}
+		s = &subState{key: key}
 		p.byChan[key] = s
 	}
 	s.ch = v
 	s.isVal = isVal
 	s.base = p.published
+	for i, o := range p.orphans {
+		if o == s {
+			p.orphans = append(p.orphans[:i], p.orphans[i+1:]...)
+			break
+		}
+	}
 	return s
+}
+
+// adoptPid adopts the channel PullID returned and binds the forwarder of the Pull it started (which shows up
+// in the hooks under a channel we never see) to it.  Subscriptions are opened one at a time.
+func (p *pump) adoptPid(open func() any) *subState {
+	// whatever is unadopted now is a leftover of an earlier subscription (a forwarder reporting once more after
+	// it was forgotten): what shows up from here on is the Pull that PullID starts
+	p.mu.Lock()
+	p.orphans = nil
+	p.mu.Unlock()
+	s := p.adopt(open(), true)
+	s.seeded = true // the wrapper itself has no seed phase of its own
+	deadline := time.Now().Add(10 * time.Second)
+	for {
+		p.mu.Lock()
+		for len(p.orphans) > 0 && p.orphans[0] == s {
+			p.orphans = p.orphans[1:]
+		}
+		if len(p.orphans) > 0 {
+			s.inner = p.orphans[0]
+			s.inner.base = s.base
+			p.orphans = p.orphans[1:]
+			p.mu.Unlock()
+			return s
+		}
+		p.mu.Unlock()
+		if time.Now().After(deadline) {
+			p.mu.Lock()
+			n, m := len(p.byChan), len(p.orphans)
+			p.mu.Unlock()
+			hx.Fatal("pump: the Pull inside PullID never showed up (%d tracked channels, %d orphans, outer got=%d done=%d exited=%v)", n, m, s.got, s.done, s.exited)
+		}
+		time.Sleep(20 * time.Microsecond)
+	}
 }
 
 func (p *pump) forget(s *subState) {
 	p.mu.Lock()
 	delete(p.byChan, s.ch.Pointer())
+	if s.inner != nil && p.byChan[s.inner.key] == s.inner {
+		delete(p.byChan, s.inner.key)
+	}
 	p.mu.Unlock()
 }
 
@@ -465,6 +529,18 @@ func (p *pump) run(subs []*subState, done func() bool, what string) {
 		p.mu.Lock()
 		idle := true
 		for _, s := range subs {
+			if s.inner != nil {
+				in := s.inner
+				innerIdle := in.exited || (in.seeded && in.got == in.done && in.got == p.published-s.base)
+				// everything the inner forwarder handed over has been taken and dealt with by the wrapper
+				if !s.exited && (!innerIdle || s.got != s.done || s.got != in.seedsSent+in.sentLoop) {
+					idle = false
+				}
+				if s.exited && !s.closedLib {
+					idle = false // the wrapper has said goodbye: its channel is about to close, see it close
+				}
+				continue
+			}
 			if !s.exited && (!s.seeded || s.got != s.done || s.got != p.published-s.base) {
 				idle = false
 			}
@@ -485,6 +561,7 @@ func (p *pump) run(subs []*subState, done func() bool, what string) {
 			if !ok {
 				p.mu.Lock()
 				subs[i].exited = true
+				subs[i].closedLib = true
 				p.mu.Unlock()
 				subs[i].ch = reflect.ValueOf((chan struct{})(nil)) // never ready again
 				continue
@@ -496,7 +573,17 @@ func (p *pump) run(subs []*subState, done func() bool, what string) {
 			}
 		case i == len(subs): // woken by a hook
 		default:
-			hx.Fatal("pump: no quiescence within 20s while %s", what)
+			p.mu.Lock()
+			dump := fmt.Sprintf("published=%d", p.published)
+			for i, s := range subs {
+				dump += fmt.Sprintf(" | sub%d got=%d done=%d seeded=%v exited=%v base=%d", i, s.got, s.done, s.seeded, s.exited, s.base)
+				if s.inner != nil {
+					in := s.inner
+					dump += fmt.Sprintf(" inner[got=%d done=%d seeded=%v exited=%v seeds=%d sent=%d]", in.got, in.done, in.seeded, in.exited, in.seedsSent, in.sentLoop)
+				}
+			}
+			p.mu.Unlock()
+			hx.Fatal("pump: no quiescence within 20s while %s: %s", what, dump)
 		}
 	}
 }
@@ -511,6 +598,7 @@ func runResource() {
 	out := hx.NewOut(hx.Arg("-out", "obs.ndjson"))
 	defer out.Close()
 	for _, p := range progs {
+		hx.Current(p)
 		if p.Res == "val" {
 			runValProgram(p, out)
 		} else {
@@ -570,8 +658,32 @@ func runCollProgram(p program, out *hx.Out) {
 	defer cancel()
 	pre := collSnapshot(c)
 	subs := make([]*subState, len(p.Subs))
+	subCancel := make([]context.CancelFunc, len(p.Subs))
 	for k, so := range p.Subs {
-		subs[k] = thePump.adopt(c.Pull(ctx, readOptions(so)...), false)
+		var sctx context.Context
+		sctx, subCancel[k] = context.WithCancel(ctx)
+		if so.Pid != "" {
+			so := so
+			subs[k] = thePump.adoptPid(func() any { return c.PullID(sctx, concID[so.Pid], readOptions(so)...) })
+		} else {
+			subs[k] = thePump.adopt(c.Pull(sctx, readOptions(so)...), false)
+		}
+	}
+	closedNow := func() []bool {
+		b := make([]bool, len(subs))
+		for k, s := range subs {
+			b[k] = s.closedLib
+		}
+		return b
+	}
+	// a single-item subscription that the library has ended still has its inner Pull registered on the bus
+	// until its context ends (with backpressure it would hold up every later write): end it now
+	reap := func() {
+		for k, s := range subs {
+			if s.closedLib {
+				subCancel[k]()
+			}
+		}
 	}
 	// the program's subscriptions are forgotten when it ends: an entry left behind could be mistaken for
 	// a later subscription whose channel happens to get the same address
@@ -584,7 +696,8 @@ func runCollProgram(p program, out *hx.Out) {
 	thePump.run(subs, func() bool { return true }, "collecting seeds")
 	base := obsLine{Prog: p.N, Res: "coll", Icpt: p.Icpt, Equiv: p.Equiv, Subs: p.Subs, Msg: mini.Empty(),
 		List: []mini.Msg{}, Idcb: []string{}, Ret: optMsg{V: mini.Empty()}, Inc: allInc(), Mask: mini.Mask{Nil: true},
-		VPre: absVal{V: mini.Empty()}, VPost: absVal{V: mini.Empty()}, Held: []optMsg{}, O: zeroOpts()}
+		VPre: absVal{V: mini.Empty()}, VPost: absVal{V: mini.Empty()}, Held: []optMsg{}, O: zeroOpts(),
+		ClosedBefore: make([]bool, len(p.Subs)), ClosedAfter: make([]bool, len(p.Subs))}
 	take := func() [][]absEvent {
 		d := make([][]absEvent, len(subs))
 		for k, s := range subs {
@@ -596,6 +709,8 @@ func runCollProgram(p program, out *hx.Out) {
 	if len(subs) > 0 {
 		l := base
 		l.Op, l.Step, l.Now, l.Pre, l.Post, l.Deliv = "Subscribe", 0, clk.now, pre, pre, take()
+		l.ClosedBefore, l.ClosedAfter = make([]bool, len(subs)), closedNow()
+		reap()
 		out.Write(l)
 	}
 	for k, cl := range p.Calls {
@@ -604,6 +719,7 @@ func runCollProgram(p program, out *hx.Out) {
 			continue
 		}
 		l := base
+		l.ClosedBefore = closedNow()
 		l.Op, l.Step, l.Now, l.Pre, l.ID, l.O, l.Mask, l.Inc = cl.Op, k+1, clk.now, pre, cl.ID, cl.O, cl.Mask, cl.Inc
 		l.Msg = cl.Msg
 		cb := &cbCount{}
@@ -660,6 +776,8 @@ func runCollProgram(p program, out *hx.Out) {
 		go func() { <-finished; thePump.poke() }()
 		thePump.run(subs, isDone, fmt.Sprintf("program %d call %d (%s)", p.N, k+1, cl.Op))
 		l.Idcb, l.Ccb = append([]string{}, cb.ids...), cb.created
+		l.ClosedAfter = closedNow()
+		reap()
 		l.Post = collSnapshot(c)
 		l.Deliv = take()
 		pre = l.Post
@@ -707,6 +825,7 @@ func runValProgram(p program, out *hx.Out) {
 	held := make([]optMsg, len(p.Subs))
 	for k, so := range p.Subs {
 		so.Inc = allInc()
+		p.Subs[k].Pid = ""
 		subs[k] = thePump.adopt(v.Pull(ctx, readOptions(so)...), true)
 		held[k] = optMsg{V: mini.Empty()}
 	}
@@ -719,7 +838,8 @@ func runValProgram(p program, out *hx.Out) {
 	thePump.run(subs, func() bool { return true }, "collecting seeds")
 	base := obsLine{Prog: p.N, Res: "val", Icpt: "none", Equiv: p.Equiv, Subs: p.Subs, Msg: mini.Empty(),
 		List: []mini.Msg{}, Idcb: []string{}, Ret: optMsg{V: mini.Empty()}, Inc: allInc(), Mask: mini.Mask{Nil: true},
-		Pre: []absItem{}, Post: []absItem{}, O: zeroOpts()}
+		Pre: []absItem{}, Post: []absItem{}, O: zeroOpts(),
+		ClosedBefore: make([]bool, len(p.Subs)), ClosedAfter: make([]bool, len(p.Subs))}
 	take := func() [][]absEvent {
 		d := make([][]absEvent, len(subs))
 		for k, s := range subs {
